@@ -1197,4 +1197,311 @@ theorem leLines_tabAppend (f : Form) (hf : stashOK f = true) (out : List Form) (
     simp [sp.whole]
   rw [this]
 
+/-! ## stash sessions -/
+
+/-- the content decodes to the forms, whatever was decoded before and whatever follows -/
+def Decodes (c : Content) (fs : List Form) : Prop :=
+  ∀ (out : List Form) (rest : Content),
+    leLines ⟨[], [], out⟩ (lines (c ++ rest)) = leLines ⟨[], [], out ++ fs⟩ (lines rest)
+
+theorem decodes_nil : Decodes [] [] := by intro out rest; simp
+
+theorem decodes_append {c1 c2 : Content} {f1 f2 : List Form} (h1 : Decodes c1 f1) (h2 : Decodes c2 f2) :
+    Decodes (c1 ++ c2) (f1 ++ f2) := by
+  intro out rest
+  rw [List.append_assoc, h1 out (c2 ++ rest), h2 (out ++ f1) rest, List.append_assoc]
+
+theorem decodes_stashEnc (f : Form) (h : stashOK f = true) : Decodes (stashEnc f) [f] :=
+  fun out rest => leLines_stashEnc f h out rest
+
+theorem decodes_tabAppend (f : Form) (h : stashOK f = true) : Decodes (tabAppend f) [f] :=
+  fun out rest => leLines_tabAppend f h out rest
+
+theorem decodes_encodeAll (fs : List Form) (h : ∀ f ∈ fs, stashOK f = true) : Decodes (encodeAll fs) fs := by
+  induction fs with
+  | nil => exact decodes_nil
+  | cons f fs ih =>
+    have := decodes_append (decodes_tabAppend f (h f (by simp))) (ih (fun g hg => h g (by simp [hg])))
+    simpa [encodeAll] using this
+
+theorem decodes_load {c : Content} {fs : List Form} (h : Decodes c fs) : decodeExpanded c = some fs := by
+  have := h [] []
+  simp only [List.append_nil, List.nil_append] at this
+  simp [decodeExpanded, this, lines, leLines]
+
+/-- memory and stash file agree: the file decodes (in any context) to the forms in memory, all of
+which satisfy the guard -/
+structure SInv (forms : List Form) (fs : FS) : Prop where
+  ok : ∀ f ∈ forms, stashOK f = true
+  sync : match fs.stash with
+    | none => forms = []
+    | some c => Decodes c forms
+
+theorem SInv.load {forms : List Form} {fs : FS} (h : SInv forms fs) : loadStash fs = some forms := by
+  have := h.sync
+  unfold loadStash
+  cases hs : fs.stash with
+  | none => rw [hs] at this; simp [this]
+  | some c => rw [hs] at this; exact decodes_load this
+
+def SOpOK : SOp → Prop
+  | .add f => isEmptyForm f = true ∨ stashOK f = true
+  | .clear _ _ => True
+
+def isSClear : SOp → Prop
+  | .clear _ _ => True
+  | _ => False
+
+@[simp] theorem FS.set_stash_stash (fs : FS) (v : Option Content) : (fs.set .stash v).stash = v := rfl
+
+theorem stash_op_crash (forms : List Form) (fs : FS) (hinv : SInv forms fs) (o : SOp) (ho : SOpOK o) (k : Nat) :
+    ∃ L, SInv L (crashAt k (sperform forms o).2 fs) ∧
+      (L = forms ∨ L = (sperform forms o).1 ∨ (isSClear o ∧ L <+: (sperform forms o).1)) ∧
+      ((sperform forms o).2.length ≤ k → L = (sperform forms o).1) := by
+  cases o with
+  | clear a b =>
+    have hkept : ∀ f ∈ clearRange forms a b, stashOK f = true :=
+      fun f hf => hinv.ok f (clearRange_mem forms a b f hf)
+    cases k with
+    | zero =>
+      refine ⟨forms, by simpa [crashAt_zero] using hinv, Or.inl rfl, ?_⟩
+      intro hl; simp [sperform] at hl
+    | succ k =>
+      refine ⟨(clearRange forms a b).take k, ?_, ?_, ?_⟩
+      · simp only [sperform]
+        rw [crashAt_succ, runSteps_take_close]
+        simp only [step]
+        rw [runSteps_writeAll .stash _ _ [] (by simp)]
+        simp only [FS.set_set, List.nil_append]
+        refine ⟨fun f hf => hkept f (List.mem_of_mem_take hf), ?_⟩
+        simp only [FS.set_stash_stash]
+        exact decodes_encodeAll _ (fun f hf => hkept f (List.mem_of_mem_take hf))
+      · exact Or.inr (Or.inr ⟨trivial, by simpa [sperform] using List.take_prefix _ _⟩)
+      · intro hl
+        simp only [sperform, List.length_cons, List.length_append, writeAll_length, List.length_nil] at hl
+        simp only [sperform]
+        exact List.take_of_length_le (by omega)
+  | add f =>
+    simp only [SOpOK] at ho
+    by_cases h1 : isEmptyForm f = true
+    · exact ⟨forms, by simpa [sperform, h1, crashAt_nil] using hinv, Or.inl rfl, fun _ => by simp [sperform, h1]⟩
+    · have hf : stashOK f = true := by
+        rcases ho with h | h
+        · exact absurd h h1
+        · exact h
+      by_cases h2 : forms.getLast? = some f
+      · exact ⟨forms, by simpa [sperform, h1, h2, crashAt_nil] using hinv, Or.inl rfl, fun _ => by simp [sperform, h1, h2]⟩
+      · have hsteps : (sperform forms (.add f)).2 =
+            [Step.openAppend .stash, Step.write .stash (stashEnc f), Step.close .stash] := by
+          simp [sperform, h1, h2]
+        have hres : (sperform forms (.add f)).1 = forms ++ [f] := by simp [sperform, h1, h2]
+        have hok' : ∀ g ∈ forms ++ [f], stashOK g = true := by
+          intro g hg
+          rcases List.mem_append.mp hg with h | h
+          · exact hinv.ok g h
+          · simp at h; subst h; exact hf
+        rw [hsteps, hres]
+        have hsync := hinv.sync
+        cases hs : fs.stash with
+        | none =>
+          rw [hs] at hsync
+          subst hsync
+          match k with
+          | 0 => exact ⟨[], by simpa [crashAt_zero] using hinv, Or.inl rfl, fun hl => by simp at hl⟩
+          | 1 =>
+            refine ⟨[], ⟨by simp, ?_⟩, Or.inl rfl, fun hl => by simp at hl⟩
+            simp [crashAt, step, FS.get, hs, decodes_nil]
+          | k + 2 =>
+            have e : crashAt (k + 2) [Step.openAppend .stash, Step.write .stash (stashEnc f), Step.close .stash] fs
+                = fs.set .stash (some (stashEnc f)) := by
+              cases k <;> simp [crashAt, List.take, step, FS.get, hs]
+            rw [e]
+            refine ⟨[] ++ [f], ⟨hok', ?_⟩, Or.inr (Or.inl rfl), fun _ => rfl⟩
+            simp only [FS.set_stash_stash, List.nil_append]
+            exact decodes_stashEnc f hf
+        | some c =>
+          rw [hs] at hsync
+          match k with
+          | 0 => exact ⟨forms, by simpa [crashAt_zero] using hinv, Or.inl rfl, fun hl => by simp at hl⟩
+          | 1 =>
+            refine ⟨forms, ⟨hinv.ok, ?_⟩, Or.inl rfl, fun hl => by simp at hl⟩
+            simp [crashAt, step, FS.get, hs, hsync]
+          | k + 2 =>
+            have e : crashAt (k + 2) [Step.openAppend .stash, Step.write .stash (stashEnc f), Step.close .stash] fs
+                = fs.set .stash (some (c ++ stashEnc f)) := by
+              cases k <;> simp [crashAt, List.take, step, FS.get, hs]
+            rw [e]
+            refine ⟨forms ++ [f], ⟨hok', ?_⟩, Or.inr (Or.inl rfl), fun _ => rfl⟩
+            simp only [FS.set_stash_stash]
+            exact decodes_append hsync (decodes_stashEnc f hf)
+
+/-- a stash session: operations applied in order -/
+def srun : List Form × FS → List SOp → List Form × FS
+  | w, [] => w
+  | w, o :: os => srun ((sperform w.1 o).1, runSteps w.2 (sperform w.1 o).2) os
+
+theorem srun_inv (ops : List SOp) : ∀ (w : List Form × FS), SInv w.1 w.2 → (∀ o ∈ ops, SOpOK o) →
+    SInv (srun w ops).1 (srun w ops).2 := by
+  induction ops with
+  | nil => intro w h _; exact h
+  | cons o ops ih =>
+    intro w h hall
+    obtain ⟨L, hL, _, hc⟩ := stash_op_crash w.1 w.2 h o (hall o (by simp)) (sperform w.1 o).2.length
+    rw [crashAt_all] at hL
+    rw [hc (Nat.le_refl _)] at hL
+    exact ih _ hL (fun o' ho' => hall o' (by simp [ho']))
+
+/-! ## settings -/
+
+def keys (m : Settings) : List String := m.map Prod.fst
+
+theorem lookup_insertKV' (k v : String) : ∀ (m : Settings), k ∉ keys m → ∀ (k' : String),
+    lookup (insertKV k v m) k' = if k' = k then some v else lookup m k' := by
+  intro m
+  induction m with
+  | nil => intro _ k'; by_cases h : k' = k <;> simp [insertKV, lookup, h]
+  | cons e r ih =>
+    intro hk k'
+    obtain ⟨k1, v1⟩ := e
+    simp only [keys, List.map_cons, List.mem_cons, not_or] at hk
+    by_cases hlt : k < k1
+    · by_cases h : k' = k <;> simp [insertKV, hlt, lookup, h]
+    · by_cases h1 : k' = k1
+      · have hne : k' ≠ k := fun e => hk.1 (e.symm.trans h1)
+        simp [insertKV, hlt, lookup, h1]
+        intro e; exact absurd (h1.trans e) hne
+      · have := ih hk.2 k'
+        simp only [insertKV, hlt, if_false, lookup, h1, this]
+
+theorem lookup_filter (k : String) : ∀ (m : Settings) (k' : String),
+    lookup (m.filter (fun kv => kv.1 != k)) k' = if k' = k then none else lookup m k' := by
+  intro m
+  induction m with
+  | nil => intro k'; simp [lookup]
+  | cons e r ih =>
+    intro k'
+    obtain ⟨k1, v1⟩ := e
+    by_cases h1 : k1 = k
+    · subst h1
+      simp only [List.filter_cons, bne_self_eq_false, Bool.false_eq_true, if_false, ih k', lookup]
+      by_cases h : k' = k1 <;> simp [h]
+    · have : (k1 != k) = true := by simp [h1]
+      simp only [List.filter_cons, this, if_true, lookup, ih k']
+      by_cases h : k' = k1
+      · have : k' ≠ k := fun e => h1 (h ▸ e)
+        simp [h, this]
+        intro e; exact absurd e h1
+      · simp [h]
+
+theorem keys_filter_not_mem (k : String) (m : Settings) : k ∉ keys (m.filter (fun kv => kv.1 != k)) := by
+  simp [keys, List.mem_map, List.mem_filter]
+
+theorem lookup_setVar (m : Settings) (k v k' : String) :
+    lookup (setVar m k v) k' = if k' = k then some v else lookup m k' := by
+  unfold setVar
+  rw [lookup_insertKV' k v _ (keys_filter_not_mem k m) k', lookup_filter]
+  by_cases h : k' = k <;> simp [h]
+
+theorem mem_keys_insertKV (k v : String) : ∀ (m : Settings) (k' : String),
+    k' ∈ keys (insertKV k v m) ↔ k' = k ∨ k' ∈ keys m := by
+  intro m
+  induction m with
+  | nil => intro k'; simp [insertKV, keys]
+  | cons e r ih =>
+    intro k'
+    obtain ⟨k1, v1⟩ := e
+    by_cases hlt : k < k1
+    · simp [insertKV, hlt, keys]
+    · have := ih k'
+      simp only [keys] at this
+      simp only [insertKV, hlt, if_false, keys, List.map_cons, List.mem_cons, this]
+      constructor
+      · rintro (h | h | h)
+        · exact Or.inr (Or.inl h)
+        · exact Or.inl h
+        · exact Or.inr (Or.inr h)
+      · rintro (h | h | h)
+        · exact Or.inr (Or.inl h)
+        · exact Or.inl h
+        · exact Or.inr (Or.inr h)
+
+theorem nodup_keys_insertKV (k v : String) : ∀ (m : Settings), k ∉ keys m → (keys m).Nodup →
+    (keys (insertKV k v m)).Nodup := by
+  intro m
+  induction m with
+  | nil => intro _ _; simp [insertKV, keys]
+  | cons e r ih =>
+    intro hk hn
+    obtain ⟨k1, v1⟩ := e
+    simp only [keys, List.map_cons, List.mem_cons, not_or, List.nodup_cons] at hk hn
+    by_cases hlt : k < k1
+    · simp only [insertKV, hlt, if_true, keys, List.map_cons, List.nodup_cons, List.mem_cons, not_or]
+      exact ⟨⟨hk.1, hk.2⟩, hn.1, hn.2⟩
+    · simp only [insertKV, hlt, if_false, keys, List.map_cons, List.nodup_cons]
+      refine ⟨?_, ih hk.2 hn.2⟩
+      intro hm
+      have := (mem_keys_insertKV k v r k1).mp hm
+      rcases this with h | h
+      · exact hk.1 h.symm
+      · exact hn.1 h
+
+theorem nodup_keys_setVar (m : Settings) (k v : String) (h : (keys m).Nodup) : (keys (setVar m k v)).Nodup := by
+  unfold setVar
+  apply nodup_keys_insertKV k v _ (keys_filter_not_mem k m)
+  exact List.Nodup.sublist (List.Sublist.map _ List.filter_sublist) h
+
+def applySets (m : Settings) (sets : List (String × String)) : Settings :=
+  sets.foldl (fun m kv => setVar m kv.1 kv.2) m
+
+theorem nodup_keys_applySets (sets : List (String × String)) : ∀ (m : Settings), (keys m).Nodup →
+    (keys (applySets m sets)).Nodup := by
+  induction sets with
+  | nil => intro m h; exact h
+  | cons kv sets ih => intro m h; exact ih _ (nodup_keys_setVar m kv.1 kv.2 h)
+
+theorem lookup_applySets_not_mem (sets : List (String × String)) : ∀ (m : Settings) (k : String),
+    k ∉ sets.map Prod.fst → lookup (applySets m sets) k = lookup m k := by
+  induction sets with
+  | nil => intro m k _; rfl
+  | cons kv sets ih =>
+    intro m k hk
+    simp only [List.map_cons, List.mem_cons, not_or] at hk
+    have := ih (setVar m kv.1 kv.2) k hk.2
+    simp only [applySets, List.foldl_cons] at this ⊢
+    rw [this, lookup_setVar]
+    simp [hk.1]
+
+theorem lookup_mem : ∀ (m : Settings) (k v : String), lookup m k = some v → (k, v) ∈ m := by
+  intro m
+  induction m with
+  | nil => intro k v h; simp [lookup] at h
+  | cons e r ih =>
+    intro k v h
+    obtain ⟨k1, v1⟩ := e
+    by_cases hk : k = k1
+    · simp [lookup, hk] at h; simp [hk, h]
+    · simp only [lookup, hk, if_false] at h
+      exact List.mem_cons_of_mem _ (ih k v h)
+
+/-- loading a file with distinct keys over any defaults gives every key its saved value -/
+theorem lookup_load (file : Settings) : (keys file).Nodup → ∀ (d : Settings) (k v : String),
+    (k, v) ∈ file → lookup (applySets d file) k = some v := by
+  induction file with
+  | nil => intro _ d k v h; simp at h
+  | cons e r ih =>
+    intro hn d k v hm
+    obtain ⟨k1, v1⟩ := e
+    simp only [keys, List.map_cons, List.nodup_cons] at hn
+    simp only [applySets, List.foldl_cons]
+    rcases List.mem_cons.mp hm with h | h
+    · injection h with hk hv
+      subst hk; subst hv
+      have := lookup_applySets_not_mem r (setVar d k v) k hn.1
+      simp only [applySets] at this
+      rw [this, lookup_setVar]; simp
+    · have hne : k ≠ k1 := by
+        intro e; subst e
+        exact hn.1 (List.mem_map.mpr ⟨(k, v), h, rfl⟩)
+      exact ih hn.2 (setVar d k1 v1) k v h
+
 end SlipVerif.History
